@@ -43,7 +43,7 @@ func (V *Verifier) render(o *Obligation, withModel bool) string {
 		b.WriteString("(set-option :produce-models true)\n")
 	}
 	b.WriteString(preamble)
-	b.WriteString("(declare-fun strbyte (Str (_ BitVec 64)) (_ BitVec 8))\n(declare-fun chancap (Ref) (_ BitVec 64))\n")
+	b.WriteString("(declare-fun strbyte (Str (_ BitVec 64)) (_ BitVec 8))\n(declare-fun strof ((Array Ref (_ BitVec 8)) Slice) Str)\n(declare-fun chancap (Ref) (_ BitVec 64))\n")
 	for _, d := range V.ST.decls {
 		b.WriteString(d + "\n")
 	}
@@ -64,7 +64,11 @@ func (V *Verifier) render(o *Obligation, withModel bool) string {
 	for _, k := range sortedKeys(floatConsts) {
 		b.WriteString(floatConsts[k] + "\n")
 	}
-	body := strings.Join(e.lazy, "\n") + "\n" + strings.Join(e.ctx[:o.CtxLen], "\n") + "\n" + o.Goal
+	ctxLines := e.ctx[:o.CtxLen]
+	if !o.Cover {
+		ctxLines = relevantCtx(ctxLines, o.Goal)
+	}
+	body := strings.Join(e.lazy, "\n") + "\n" + strings.Join(ctxLines, "\n") + "\n" + o.Goal
 	extra := strings.Join(V.extraDecl, "\n")
 	used := make([]bool, len(V.axiomTerms))
 	// float function declarations (uninterpreted)
@@ -112,7 +116,7 @@ func (V *Verifier) render(o *Obligation, withModel bool) string {
 		}
 	}
 	b.WriteString(strings.Join(e.lazy, "\n") + "\n")
-	b.WriteString(strings.Join(e.ctx[:o.CtxLen], "\n") + "\n")
+	b.WriteString(strings.Join(ctxLines, "\n") + "\n")
 	if o.Cover {
 		b.WriteString("(assert " + o.Goal + ")\n")
 	} else {
@@ -127,6 +131,70 @@ func (V *Verifier) render(o *Obligation, withModel bool) string {
 		b.WriteString("(get-value (" + strings.Join(ts, " ") + "))\n")
 	}
 	return b.String()
+}
+
+var guardNameRe = regexp.MustCompile(`\b(reach_b[0-9]+_[0-9]+|edge_[0-9]+_[0-9]+_[0-9]+)\b`)
+
+// relevantCtx drops the facts that are guarded by the reachability of a block which is not
+// on any path to the obligation (code after the loop when the obligation is inside it,
+// sibling branches): they cannot contribute to the proof and only burden the solver.
+// Dropping hypotheses is always sound. The guards a goal depends on are found through
+// the definitions (= reach_X rhs) of the reachability constants it mentions.
+func relevantCtx(ctx0 []string, goal string) []string {
+	var ctx []string
+	for _, l := range ctx0 {
+		if strings.Contains(l, "\n") {
+			ctx = append(ctx, strings.Split(l, "\n")...)
+		} else {
+			ctx = append(ctx, l)
+		}
+	}
+	defs := map[string]string{}
+	for _, l := range ctx {
+		if strings.HasPrefix(l, "(assert (= reach_") || strings.HasPrefix(l, "(assert (= edge_") {
+			rest := l[len("(assert (= "):]
+			if i := strings.IndexByte(rest, ' '); i > 0 {
+				defs[rest[:i]] = rest[i:]
+			}
+		} else if strings.HasPrefix(l, "(define-fun reach_") || strings.HasPrefix(l, "(define-fun edge_") {
+			rest := l[len("(define-fun "):]
+			if i := strings.IndexByte(rest, ' '); i > 0 {
+				defs[rest[:i]] = rest[i:]
+			}
+		}
+	}
+	need := map[string]bool{}
+	var work []string
+	for _, n := range guardNameRe.FindAllString(goal, -1) {
+		if !need[n] {
+			need[n] = true
+			work = append(work, n)
+		}
+	}
+	if len(work) == 0 {
+		return ctx
+	}
+	for len(work) > 0 {
+		n := work[len(work)-1]
+		work = work[:len(work)-1]
+		for _, m := range guardNameRe.FindAllString(defs[n], -1) {
+			if !need[m] {
+				need[m] = true
+				work = append(work, m)
+			}
+		}
+	}
+	out := make([]string, 0, len(ctx))
+	for _, l := range ctx {
+		if strings.HasPrefix(l, "(assert (=> reach_") || strings.HasPrefix(l, "(assert (=> edge_") {
+			rest := l[len("(assert (=> "):]
+			if i := strings.IndexByte(rest, ' '); i > 0 && !need[rest[:i]] {
+				continue
+			}
+		}
+		out = append(out, l)
+	}
+	return out
 }
 
 var solverSem = make(chan struct{}, 18)
@@ -333,6 +401,54 @@ func (V *Verifier) solveOne(o *Obligation, opt solveOpts) {
 			}
 		} else {
 			outs = append(outs, "[qf-int] "+err.Error())
+		}
+	}
+	// 1b: pattern-directed instantiation (ematch.go), split on merged slices / memories:
+	// quantifier free, every case must be refuted
+	for li, lvl := range [][5]int{{60, 1500, 8, 1, 0}, {60, 1500, 8, 1, 1}, {40, 1200, 4, 0, 0}, {200, 6000, 6, 0, 1}} {
+		cases, n := ematchCasesSplit(text, lvl[0], lvl[1], lvl[2], lvl[3] == 1, lvl[4] == 1)
+		if len(cases) == 0 {
+			continue
+		}
+		all := true
+		for ci, ct := range cases {
+			vfile := fmt.Sprintf("%s.em%d.smt2", strings.TrimSuffix(file, ".smt2"), ci)
+			if err := os.WriteFile(vfile, []byte(ct), 0o644); err != nil {
+				all = false
+				break
+			}
+			okc := false
+			for _, cfg := range []solverCfg{cfgZ3New, cfgCvc5} {
+				res, out, _ := runSolver(cfg, vfile, opt.timeout/2, opt.seed)
+				outs = append(outs, fmt.Sprintf("[ematch case %d/%d %s] %s", ci, len(cases), cfg.name, firstLines(out, 2)))
+				if res == "unsat" {
+					okc = true
+					break
+				}
+				if res == "sat" {
+					break // instances missing: another solver will not help
+				}
+			}
+			if !okc {
+				if it, err := toIntRendering(ct); err == nil {
+					ifile := vfile + ".int.smt2"
+					if os.WriteFile(ifile, []byte(it), 0o644) == nil {
+						res, out, _ := runSolver(cfgZ3New, ifile, opt.timeout/2, opt.seed)
+						outs = append(outs, fmt.Sprintf("[ematch-int case %d/%d] %s", ci, len(cases), firstLines(out, 2)))
+						okc = res == "unsat"
+						os.Remove(ifile)
+					}
+				}
+			}
+			os.Remove(vfile)
+			if !okc {
+				all = false
+				break
+			}
+		}
+		if all {
+			finish("unsat", fmt.Sprintf("z3-new/cvc5[ematch%d:%d instances, %d cases]", li, n, len(cases)), "")
+			return
 		}
 	}
 	// 2: race the remaining strategies; the first "unsat" wins. Derived variants
